@@ -647,6 +647,12 @@ fn entry_points(text: &str) -> (Vec<(&'static str, Res)>, Option<CanonicalJsonVa
             out.push(("from_str+to_string", serde_json::to_string(v).map_err(|_| ())));
             out.push(("from_str+Display", Ok(v.to_string())));
             out.push(("from_str+Display{:#}", Ok(format!("{v:#}"))));
+            // `Display` is documented as unaffected by any formatting parameters: width, fill,
+            // alignment, precision, sign and zero flags must all give the same bytes
+            out.push(("from_str+Display{:<40}", Ok(format!("{v:<40}"))));
+            out.push(("from_str+Display{:*>64}", Ok(format!("{v:*>64}"))));
+            out.push(("from_str+Display{:.3}", Ok(format!("{v:.3}"))));
+            out.push(("from_str+Display{:^+#012.1}", Ok(format!("{v:^+#012.1}"))));
             out.push((
                 "from_str+to_vec",
                 serde_json::to_vec(v).map_err(|_| ()).and_then(|b| String::from_utf8(b).map_err(|_| ())),
